@@ -27,22 +27,24 @@ RULE = (
     "A case is a likelihood problem: a model name out of all 25 registered models (nucleotide reversible / non-reversible / "
     "discrete-time, 61-state codon, 20-state protein; optionally 2-3 gamma rate bins for nucleotide models), a tree with 3-6 "
     "tips (3-5 for codon/protein; root degree 2-4, polytomies), branch lengths log-uniform in [1e-3, 3], an alignment of 2-12 "
-    "motif columns drawn with repetition from a pool of distinct columns (IUPAC degenerates and gaps in about 12 % of the cells), "
-    "unequal motif probabilities, parameter values log-uniform in [0.1, 10] with global or per-edge-group scope, and the arguments "
-    "of the transformations: a permutation of the motif-sized columns, a permutation of the sequences, child permutations at every "
-    "internal node, repeat factor k in {2,3} (tiled or in place), a multiset of columns to append, two root placements (at an "
-    "internal node or at a fraction of an edge), one library re-rooting, 1-3 edge splits, and a combination of all of them. "
-    "Each transformed problem is one evaluation. Non-trivial = unequal motif probabilities and (a non-identity column permutation "
-    "over >= 3 distinct columns, or a root moved across >= 1 internal node); distinct = distinct case encodings."
+    "motif columns drawn with repetition from a pool of distinct columns (IUPAC degenerates and gaps in about 12 % of the cells, "
+    "old- or new-type alignment objects), motif probabilities (equal / varied / sparse, i.e. 30-90 % of the motifs at 2e-6 as the "
+    "library assigns to unobserved motifs), parameter values 1.0 or log-uniform in [0.1, 10] with global or per-edge-group scope, and "
+    "the arguments of the transformations: a permutation of the motif-sized columns, a permutation of the sequences, child "
+    "permutations at every internal node, repeat factor k in {2,3} (tiled or in place), a multiset of columns to append, two root "
+    "placements (at an internal node or at a fraction of an edge), one library re-rooting, 1-3 edge splits, and a combination of all "
+    "of them. Each transformed problem is one evaluation. Non-trivial = unequal motif probabilities and (a non-identity column "
+    "permutation over >= 3 distinct columns, or a root moved across >= 1 internal node); distinct = distinct case encodings."
 )
 ASSUMPTIONS = [
     "tolerance |lnL' - lnL| <= 1e-9 * max(1, |lnL|) (k * lnL for k-fold repetition; lnL(A)+lnL(S) for appended columns S)",
+    "root-placement and edge-split relations compare P(t) of one rate matrix at different t, so they depend on the accuracy of the matrix exponential: half of the cases run them with lf.set_expm('pade') on both sides at 1e-9; the other half with the default exponentiator ('either': eigendecomposition validated by the library at numpy.allclose precision, Pade fallback) where only 1e-6 * max(1, |lnL|) is required (signatures .../default-expm/...)",
     "re-rooting relations only for the time-reversible models (JC69 F81 K80 HKY85 TN93 GTR, all codon models except GNC, all protein models); never for GN, ssGN, GNC, BH, DT",
-    "edge-split relations only for continuous-time models (not BH/DT); both halves of a split edge get the parameter values of the original edge, so the model is homogeneous along it",
+    "edge-split relations only for continuous-time models (not BH/DT); both halves of a split edge get the parameter values of the original edge, so the process is homogeneous along it",
     "appending copies of existing columns is required to add exactly the log-likelihood of those columns (sites are independent; no rate-HMM is configured)",
-    "codon alignments hold sense codons of the standard code, '---', 'NNN' or a sense codon with N in third position whose resolutions contain a sense codon; BH/DT alignments have no gaps",
-    "branch lengths in [1e-3, 3], exchangeability-type parameters in [0.1, 10], motif probabilities >= about 0.3 % each; rate heterogeneity only as gamma-distributed 'rate' with equal bin probabilities",
-    "all parameters are set constant through set_param_rule / set_motif_probs; lnL is read from lf.lnL without optimisation",
+    "codon alignments hold sense codons of the standard code, '---', 'NNN' or a sense codon with N in third position (not for TA./TG. prefixes); BH/DT alignments have no gaps or '?'",
+    "branch lengths in [1e-3, 3], rate parameters in [0.1, 10], motif probabilities >= 2e-6 (set_motif_probs lifts smaller values to 1e-6 itself); rate heterogeneity only as gamma-distributed 'rate' with equal bin probabilities; BH/DT psub matrices are row-stochastic with a dominant diagonal",
+    "all parameters are set constant through apply_param_rules / set_motif_probs; lnL is read from lf.lnL without optimisation; substitution model instances are deep copies of one pristine instance per process",
     "library re-rooting (rooted_at / rooted_with_tip) is only used when parameters are globally scoped, and its relation is skipped when the library's result does not preserve the tip-to-tip path lengths (that is C09's clause)",
 ]
 
@@ -54,6 +56,7 @@ CODON_NONREV = ["GNC"]
 PROT = ["DSO78", "JTT92", "AH96", "AH96_mtmammals", "WG01"]
 REVERSIBLE = set(NUC_REV + CODON_REV + PROT)
 DISCRETE = set(NUC_DISCRETE)
+TINY_PROB = 2e-6  # set_motif_probs itself lifts anything below 1e-6 to that value
 SKIP_PARAMS = {"mprobs", "length", "psubs", "bprobs", "rate", "rate_shape", "dpsubs"}
 
 NUCS = "ACGT"
@@ -285,8 +288,11 @@ def columns_st(draw, family, ntips, gaps_ok):
 
 
 @st.composite
-def case_st(draw, family):
-    if family == "nuc":
+def case_st(draw, family, models=None):
+    if models is not None:
+        model = draw(st.sampled_from(models))
+        max_tips, nmp = 5, (4 if model.startswith("MG94") else 61)
+    elif family == "nuc":
         model = draw(st.sampled_from(NUC_REV + NUC_REV + NUC_NONREV + NUC_NONREV + NUC_DISCRETE))
         max_tips, nmp = 6, 4
     elif family == "codon":
@@ -300,9 +306,17 @@ def case_st(draw, family):
     ntips = len(m_tips(tree))
     cols = draw(columns_st(family, ntips, gaps_ok=not discrete))
     ncols = len(cols)
-    equal_pi = draw(st.integers(0, 9)) == 0
-    w = [1.0] * nmp if equal_pi else [draw(st.floats(0.05, 1.0, allow_nan=False)) for _ in range(nmp)]
-    pvals = [draw(_loguniform(0.1, 10.0)) for _ in range(12)]
+    pi_mode = draw(st.sampled_from(["equal", "varied", "varied", "varied", "varied", "varied", "sparse", "sparse"]))
+    w = [1.0] * nmp if pi_mode == "equal" else [draw(st.floats(0.05, 1.0, allow_nan=False)) for _ in range(nmp)]
+    if pi_mode == "sparse":
+        # some motifs get the probability the library itself assigns to unobserved motifs (about 1e-6)
+        cut = draw(st.sampled_from([3, 6, 9]))  # about 30 %, 60 % or 90 % of the motifs
+        tiny = [draw(st.integers(0, 9)) < cut for _ in range(nmp)]
+        if all(tiny):
+            tiny[0] = False
+        w = [0.0 if t else x for t, x in zip(tiny, w)]
+    # 1.0 is the value every rate parameter has in a freshly made likelihood function
+    pvals = [draw(st.one_of(st.just(1.0), _loguniform(0.1, 10.0), _loguniform(0.1, 10.0))) for _ in range(12)]
     scope = "global" if discrete else draw(st.sampled_from(["global", "global", "global", "edge", "edge"]))
     bins = 0
     if family == "nuc" and not discrete and draw(st.integers(0, 4)) == 0:
@@ -331,8 +345,10 @@ def case_st(draw, family):
         "bins": bins,
         "shape": draw(_loguniform(0.2, 5.0)),
         "new_type": draw(st.integers(0, 3)) == 0,
+        "default_expm": draw(st.booleans()),
         "tree": tree,
         "cols": cols,
+        "pi_mode": pi_mode,
         "mp": w,
         "pvals": pvals,
         "scope": scope,
@@ -345,7 +361,24 @@ class _Ctx:
     pass
 
 
-def _lnl(ctx, tm, cols, order, real_tree=None):
+_PRISTINE = {}  # per process: (model, bins) -> substitution model never handed to a likelihood function
+
+
+def _get_sm(model, bins):
+    """a fresh substitution model instance; codon models take seconds to construct, so a pristine instance is
+    built once per process and every case works on its own deep copy (execution stays a function of the case)"""
+    import copy
+
+    import cogent3
+
+    key = (model, bool(bins))
+    if key not in _PRISTINE:
+        kw = {"ordered_param": "rate", "distribution": "gamma"} if bins else {}
+        _PRISTINE[key] = cogent3.get_model(model, **kw)
+    return copy.deepcopy(_PRISTINE[key])
+
+
+def _lnl(ctx, tm, cols, order, real_tree=None, pade=False):
     """lnL of the problem on tree model ``tm`` (or on the given real tree, whose nodes then carry ``tm``-independent
     lengths read from the tree itself) with alignment columns ``cols`` and sequences given in ``order``."""
     import cogent3
@@ -367,6 +400,9 @@ def _lnl(ctx, tm, cols, order, real_tree=None):
     lf.set_alignment(aln)
     lf.set_motif_probs(ctx.mprobs)
     model = case["model"]
+    if pade and model not in DISCRETE:
+        lf.set_expm("pade")
+    rules = []
     if model in DISCRETE:
         import numpy
 
@@ -374,24 +410,26 @@ def _lnl(ctx, tm, cols, order, real_tree=None):
             P = numpy.array(n["pw"], dtype=float)
             P = P + numpy.eye(4) * 12.0
             P = P / P.sum(axis=1)[:, None]
-            lf.set_param_rule("psubs", edge=n["name"], value=P, is_constant=True)
+            rules.append(dict(par_name="psubs", edge=n["name"], value=P, is_constant=True))
+        lf.apply_param_rules(rules)
         return float(lf.lnL)
     pnames = sorted(p for p in lf.get_param_names() if p not in SKIP_PARAMS)
     pv = case["pvals"]
     if case["scope"] == "global" or nodes is None:
         for i, p in enumerate(pnames):
-            lf.set_param_rule(p, value=pv[i % len(pv)], is_constant=True)
+            rules.append(dict(par_name=p, value=pv[i % len(pv)], is_constant=True))
     else:
         groups = {}
         for n in nodes:
             groups.setdefault(n["grp"], []).append(n["name"])
         for i, p in enumerate(pnames):
             for g, edges in sorted(groups.items()):
-                lf.set_param_rule(p, edges=edges, value=pv[(i + 5 * g) % len(pv)], is_constant=True)
+                rules.append(dict(par_name=p, edges=edges, value=pv[(i + 5 * g) % len(pv)], is_constant=True))
     if case["bins"]:
-        lf.set_param_rule("rate_shape", value=case["shape"], is_constant=True)
+        rules.append(dict(par_name="rate_shape", value=case["shape"], is_constant=True))
     for name, ln in lengths.items():
-        lf.set_param_rule("length", edge=name, value=ln, is_constant=True)
+        rules.append(dict(par_name="length", edge=name, value=ln, is_constant=True))
+    lf.apply_param_rules(rules)
     return float(lf.lnL)
 
 
@@ -419,15 +457,17 @@ def execute(case) -> Soft:
     ncols = len(cols)
     rev = model in REVERSIBLE
     discrete = model in DISCRETE
-    kw = {"ordered_param": "rate", "distribution": "gamma"} if case["bins"] else {}
-    ok, sm = s.call(f"get_model/{fam}", cogent3.get_model, model, **kw)
+    ok, sm = s.call(f"get_model/{fam}", _get_sm, model, case["bins"])
     if not ok:
         return s
     ctx.sm = sm
     keys = sorted(sm.get_mprob_alphabet())
     w = case["mp"][: len(keys)]
+    if not any(w):
+        w = [1.0] * len(w)
+    ntiny = sum(1 for x in w if x == 0)
     tot = sum(w)
-    ctx.mprobs = {k: x / tot for k, x in zip(keys, w)}
+    ctx.mprobs = {k: (TINY_PROB if x == 0 else x / tot * (1.0 - ntiny * TINY_PROB)) for k, x in zip(keys, w)}
     unequal_pi = max(w) - min(w) > 1e-3
 
     kind = "discrete" if discrete else ("reversible" if rev else "nonreversible")
@@ -437,7 +477,7 @@ def execute(case) -> Soft:
         f"family:{fam}", f"model:{model}", f"kind:{kind}", f"scope:{case['scope']}", "bins" if case["bins"] else "no-bins",
         f"root-degree:{len(tm['kids'])}", "polytomy" if any(len(n["kids"]) > 2 for n in m_internal(tm)[1:]) or len(tm["kids"]) > 3 else "binary",
         "degenerate-symbols" if degen else "canonical-only", "duplicate-columns" if distinct < ncols else "all-columns-distinct",
-        "pi-unequal" if unequal_pi else "pi-equal", "new-type-alignment" if case["new_type"] else "old-type-alignment", f"tips:{ntips}",
+        f"pi:{case['pi_mode']}", "new-type-alignment" if case["new_type"] else "old-type-alignment", f"tips:{ntips}",
     )
 
     ok, base = s.call(f"base/{fam}", _lnl, ctx, tm, cols, tips)
@@ -448,15 +488,30 @@ def execute(case) -> Soft:
         return s
     evals = 0
 
-    def relate(name, want, what, *args, **kwargs):
+    def relate(name, want, what, *args, rtol=1e-9, tag="", **kwargs):
         nonlocal evals
-        sig = f"{name}/{fam}"
+        sig = f"{name}{tag}/{fam}"
         ok, got = s.call(sig, _lnl, ctx, *args, **kwargs)
         if not ok:
             return
         evals += 1
-        s.cls(f"rel:{name}")
-        s.close(got, want, sig, f"{model} scope={case['scope']} bins={case['bins']} {what}: base lnL {base!r}", rtol=1e-9)
+        s.cls(f"rel:{name}{tag}")
+        s.notes.setdefault("residuals", []).append([name + tag, abs(got - want) / max(1.0, abs(want))])
+        s.close(got, want, sig, f"{model} scope={case['scope']} bins={case['bins']} pi={case['pi_mode']} {what}: base lnL {base!r}", rtol=rtol)
+
+    # Relations that evaluate P(t) of one rate matrix at different t (root placement, edge split) depend on the accuracy
+    # of the matrix exponential.  Half of the cases evaluate them with the Pade exponentiator on both sides (tolerance
+    # 1e-9); the other half with the library's default exponentiator, whose eigendecomposition route the library itself
+    # only validates to numpy.allclose precision: there the relation is required to 1e-6 and has its own signature.
+    rbase, rkw = base, {"pade": False}
+    if not discrete:
+        if case["default_expm"]:
+            rkw = {"pade": False, "rtol": 1e-6, "tag": "/default-expm"}
+        else:
+            ok, rbase = s.call(f"base-pade/{fam}", _lnl, ctx, tm, cols, tips, pade=True)
+            if not ok or not (math.isfinite(rbase) and rbase < 0):
+                return s
+            rkw = {"pade": True, "tag": "/pade"}
 
     # -- column permutation (motif-sized blocks)
     perm = xf["colperm"]
@@ -496,7 +551,7 @@ def execute(case) -> Soft:
                 continue
             done.add(nd)
             stm = m_split(stm, nd, sp["frac"], f"s{j}")
-        relate("split", base, f"edges above {sorted(done)} split: {m_newick(stm)}", stm, cols, tips)
+        relate("split", rbase, f"edges above {sorted(done)} split: {m_newick(stm)}", stm, cols, tips, **rkw)
 
     # -- re-rooting (reversible)
     root_nontrivial = False
@@ -519,7 +574,7 @@ def execute(case) -> Soft:
             if m_has_deg2(rtm):
                 s.cls("reroot-leaves-degree2-node")
             root_nontrivial = root_nontrivial or moved
-            relate(name, base, f"{what}: {m_newick(tm)} -> {m_newick(rtm)}", rtm, cols, tips)
+            relate(name, rbase, f"{what}: {m_newick(tm)} -> {m_newick(rtm)}", rtm, cols, tips, **rkw)
         # library re-rooting, globally scoped parameters only
         if case["scope"] == "global":
             lb = xf["lib"]
@@ -542,7 +597,7 @@ def execute(case) -> Soft:
                             gp = m_paths(obs)
                             same = all(abs(gp[key] - v) <= 1e-12 * max(1.0, v) for key, v in wp.items())
                         if same:
-                            relate(name, base, f"library re-rooting with {target}: {res.get_newick(with_distances=True)}", None, cols, tips, real_tree=res)
+                            relate(name, rbase, f"library re-rooting with {target}: {res.get_newick(with_distances=True)}", None, cols, tips, real_tree=res, **rkw)
                         else:
                             s.cls("lib-reroot-changed-path-lengths(skipped)")
 
@@ -552,8 +607,8 @@ def execute(case) -> Soft:
         cn = m_nodes(ctm)
         sp = xf["split"][0]
         ctm = m_split(ctm, cn[sp["node"] % len(cn)]["name"], sp["frac"], "s_c")
-    relate("combined", k * base, "column permutation + sequence order + child order + repetition" + (" + re-rooting + split" if rtm is not None else ""),
-           ctm, [pcols[i % ncols] for i in range(ncols * k)], order)
+    relate("combined", k * rbase, "column permutation + sequence order + child order + repetition" + (" + re-rooting + split" if rtm is not None else ""),
+           ctm, [pcols[i % ncols] for i in range(ncols * k)], order, **rkw)
 
     s.evals = max(1, evals)
     s.nontrivial = bool(unequal_pi and (col_nontrivial or root_nontrivial))
@@ -564,10 +619,16 @@ def execute(case) -> Soft:
     return s
 
 
+# codon models take 1-4 s each to construct, so the codon cases are split into subs by model group: a worker process
+# then builds only the models of its group
 SUBS = [
     Sub("nucleotide", execute, strategy=case_st("nuc"), quick=640, thorough=64_000, shards_quick=16, weight=1.0),
-    Sub("codon", execute, strategy=case_st("codon"), quick=160, thorough=16_000, shards_quick=16, weight=3.0),
-    Sub("protein", execute, strategy=case_st("prot"), quick=160, thorough=16_000, shards_quick=16, weight=1.5),
+    Sub("protein", execute, strategy=case_st("prot"), quick=160, thorough=16_000, shards_quick=8, weight=1.0),
+    Sub("codon-cnf", execute, strategy=case_st("codon", ["CNFGTR", "CNFHKY"]), quick=32, thorough=3_200, shards_quick=2, weight=4.0),
+    Sub("codon-mg94", execute, strategy=case_st("codon", ["MG94HKY", "MG94GTR"]), quick=32, thorough=3_200, shards_quick=2, weight=4.0),
+    Sub("codon-y98", execute, strategy=case_st("codon", ["GY94", "Y98"]), quick=32, thorough=3_200, shards_quick=2, weight=4.0),
+    Sub("codon-h04", execute, strategy=case_st("codon", ["H04G", "H04GK", "H04GGK"]), quick=36, thorough=3_600, shards_quick=3, weight=4.0),
+    Sub("codon-gnc", execute, strategy=case_st("codon", ["GNC"]), quick=24, thorough=2_400, shards_quick=2, weight=5.0),
 ]
 
 KNOWN_PREDICATES = {}
